@@ -266,6 +266,12 @@ func runCheck(prop, repo, verifDir, tier, only string, workers int, verbose, noE
 	var runs []*FuncRun
 	var allObs []*Obligation
 	var removedHelpers []string
+	orphanContracts = nil
+	for _, k := range cs.Order {
+		if c := cs.Funcs[k]; c != nil && !c.Trusted && len(c.Loops) > 0 && v.findFunc(k) == nil {
+			orphanContracts = append(orphanContracts, c)
+		}
+	}
 	relAlias := [][2]string{{"lists_Element_T_", "RelElement"}, {"list_Element", "RelElement"}, {"lists_List_T_", "RelList"}, {"list_List", "RelList"}, {"lists_Ring_T_", "RelRing"}, {"ring_Ring", "RelRing"}}
 	for _, l := range lemmas {
 		r := v.VerifyLemma(l)
